@@ -1163,3 +1163,89 @@ def gen_dyn_arms(src, attempt):
         return "Definition dyn_de_scalar_arms : list (list N * dde_arm) :=\n  [%s]." % ';\n   '.join(rows)
     attempt(out, 'postcard-dyn/de.rs:scalar arms', god, 'dyn_de_scalar_arms')
     return '\n'.join(out) + '\n'
+
+
+# ----------------------------------------------------------------------------------------
+# GenStorages.v: the storage flavours of ser/flavors.rs (HVec, AllocVec, ExtendFlavor, Size, the
+# two WriteFlavors) and the trait's default try_extend, each method body as one storage operation
+STORAGE_IMPLS = [
+    ('HVec', r'impl<const\s+B:\s*usize>\s*Flavor\s+for\s+HVec<B>', None),
+    ('AllocVec', r'impl\s+Flavor\s+for\s+AllocVec', None),
+    ('ExtendFlavor', r'impl<T>\s*Flavor\s+for\s+ExtendFlavor<T>', None),
+    ('Size', r'impl\s+Flavor\s+for\s+Size', None),
+    ('eio::WriteFlavor', r'impl<T>\s*Flavor\s+for\s+WriteFlavor<T>', 'pub mod eio'),
+    ('io::WriteFlavor', r'impl<T>\s*Flavor\s+for\s+WriteFlavor<T>', 'pub mod io'),
+]
+STORAGE_INDEX = [
+    ('HVec', r'impl<const\s+B:\s*usize>\s*IndexMut<usize>\s+for\s+HVec<B>'),
+    ('AllocVec', r'impl\s+IndexMut<usize>\s+for\s+AllocVec'),
+]
+
+
+def storage_op(body, params, what):
+    c = compact(body)
+    d = params[0] if params else None
+    E = r'\.map_err\(\|_\|Error::(\w+)\)'
+    forms = [
+        (r'^self\.vec\.push\(%s\)%s$' % (d, E), lambda m: "OVecPush (Some %s)" % m.group(1)),
+        (r'^self\.vec\.extend_from_slice\(%s\)%s$' % (d, E), lambda m: "OVecExtend (Some %s)" % m.group(1)),
+        (r'^self\.vec\.push\(%s\);Ok\(\(\)\)$' % d, lambda m: "OVecPush None"),
+        (r'^self\.vec\.extend_from_slice\(%s\);Ok\(\(\)\)$' % d, lambda m: "OVecExtend None"),
+        (r'^self\.iter\.extend\(\[%s\]\);Ok\(\(\)\)$' % d, lambda m: "OIterExtendOne"),
+        (r'^self\.iter\.extend\(%s\.iter\(\)\.copied\(\)\);Ok\(\(\)\)$' % d, lambda m: "OIterExtendAll"),
+        (r'^self\.size\+=1;Ok\(\(\)\)$', lambda m: "OSizeAddOne"),
+        (r'^self\.size\+=%s\.len\(\);Ok\(\(\)\)$' % d, lambda m: "OSizeAddLen"),
+        (r'^self\.writer\.write_all\(&\[%s\]\)%s\?;Ok\(\(\)\)$' % (d, E), lambda m: "OWriteAllOne %s" % m.group(1)),
+        (r'^self\.writer\.write_all\(%s\)%s\?;Ok\(\(\)\)$' % (d, E), lambda m: "OWriteAll %s" % m.group(1)),
+        (r'^self\.writer\.flush\(\)%s\?;Ok\(self\.writer\)$' % E, lambda m: "OFlushReturn %s" % m.group(1)),
+        (r'^Ok\(self\.(vec|iter|size)\)$', lambda m: "OReturnStore"),
+        (r'^%s\.iter\(\)\.try_for_each\(\|(\w+)\|self\.try_push\(\*(\w+)\)\)$' % d,
+         lambda m: "ODefaultExtend" if m.group(1) == m.group(2) else None),
+        (r'^&mutself\.vec\[%s\]$' % d, lambda m: "OIndexVec"),
+    ]
+    for rx, mk in forms:
+        m = re.match(rx, c)
+        if m:
+            r = mk(m)
+            if r is not None:
+                return r
+    raise Untranslatable("%s: body `%s`" % (what, c[:140]))
+
+
+def gen_storages(src, attempt):
+    out = ["(* GENERATED by tools/translate.py from the Rust sources. Do not edit. *)",
+           "From PV Require Import Base StorageDecl.", "Open Scope N_scope.", "",
+           "(* source/postcard/src/ser/flavors.rs: the storage flavours *)"]
+    ser = src('source/postcard/src/ser/flavors.rs')
+
+    def go():
+        rows = []
+        # the trait's default try_extend
+        i = ser.index('pub trait Flavor')
+        sig, body = find_fn(ser[i:], 'try_extend')
+        rows.append("(%s, [(%s, %s)])" % (coq_str('Flavor'), coq_str('try_extend'), storage_op(body, params_of(sig), 'ser/flavors.rs:Flavor::try_extend (default)')))
+        for name, rx, mod in STORAGE_IMPLS:
+            text = ser
+            if mod is not None:
+                k = ser.index(mod)
+                text = ser[k:]
+            m = re.search(rx, text)
+            if not m:
+                raise Untranslatable("impl Flavor for %s not found" % name)
+            blk = block_after(text[m.start():], rx + r'[^{]*')
+            meths = re.findall(r'\bfn\s+(\w+)', blk)
+            ms = []
+            for meth in sorted(meths):
+                sig, body = find_fn(blk, meth)
+                ms.append("(%s, %s)" % (coq_str(meth), storage_op(body, params_of(sig), 'ser/flavors.rs:%s::%s' % (name, meth))))
+            rows.append("(%s, [%s])" % (coq_str(name), '; '.join(ms)))
+        for name, rx in STORAGE_INDEX:
+            m = re.search(rx, ser)
+            if not m:
+                raise Untranslatable("impl IndexMut for %s not found" % name)
+            blk = block_after(ser[m.start():], rx + r'[^{]*')
+            sig, body = find_fn(blk, 'index_mut')
+            rows.append("(%s, [(%s, %s)])" % (coq_str(name + '/IndexMut'), coq_str('index_mut'), storage_op(body, params_of(sig), 'ser/flavors.rs:%s::index_mut' % name)))
+        return "Definition storage_methods : list (list N * list (list N * sop)) :=\n  [%s]." % ';\n   '.join(rows)
+    attempt(out, 'ser/flavors.rs:storages', go, 'storage_methods')
+    return '\n'.join(out) + '\n'
